@@ -25,7 +25,7 @@ RULE = ('Legacy NDNApp + scripted producer on the virtual loop. Object: unsegmen
         'exhaustion; distinct key = (N, k, r, loss-pattern class, fault).')
 ASSUMPTIONS = [
     'the producer marks at least the last segment with FinalBlockId (otherwise the end of the object is undefined)',
-    'responses are immediate; a lost response is simply not sent',
+    'responses arrive immediately or after a fixed latency of at most half the configured timeout; a lost response is simply not sent',
     'retry_times=0 is exercised only without losses: nothing timed out, so the fetch must deliver the object (every Interest sent once)',
 ]
 
@@ -80,8 +80,14 @@ def _run(sim, case, r):
     face = sim.face
     orig_send = face.send
 
+    timeout_ms = case.get('timeout', TIMEOUT_MS)
+    latency = min(case.get('latency_ms', 0), timeout_ms // 2) / 1000     # every response takes this long (well within the timeout)
+
     def respond(w):
-        loop.call_soon(lambda: loop.create_task(sim.app.face.callback(net.outer_type(w), w)))
+        if latency:
+            loop.call_later(latency, lambda: loop.create_task(sim.app.face.callback(net.outer_type(w), w)))
+        else:
+            loop.call_soon(lambda: loop.create_task(sim.app.face.callback(net.outer_type(w), w)))
 
     def data_for(i):
         fb = seg(last) if (i == last or case['final_on_all']) else None
@@ -147,7 +153,7 @@ def _run(sim, case, r):
         try:
             if delay:
                 await asyncio.sleep(delay / 1000)
-            async for c in segment_fetcher(sim.app, list(ask), timeout=TIMEOUT_MS, retry_times=rt_arg, validator=validator):
+            async for c in segment_fetcher(sim.app, list(ask), timeout=timeout_ms, retry_times=rt_arg, validator=validator):
                 out.append(None if c is None else bytes(c))
             box['end'] = 'done'
         except Exception as e:
@@ -164,7 +170,7 @@ def _run(sim, case, r):
     for _ in range(400):
         if task.done():
             break
-        sim.vl.advance(TIMEOUT_MS / 1000)
+        sim.vl.advance(timeout_ms / 1000)
     if not task.done():
         task.cancel()
         sim.vl.settle()
@@ -279,7 +285,8 @@ def _case(draw):
             'ask_segment': draw(st.one_of(st.none(), st.none(), st.none(), st.integers(0, 7))),
             'version': draw(st.one_of(st.none(), st.sampled_from([0, 1, 255, 256, 2 ** 32]))), 'loss': loss, 'fault': fault,
             'twin': draw(st.sampled_from([None, None, 0, 1, 40, 60])),
-            'empty_seg': draw(st.sampled_from([None, None, None, 0, 1, 2, 6]))}
+            'empty_seg': draw(st.sampled_from([None, None, None, 0, 1, 2, 6])),
+            'timeout': draw(st.sampled_from([100, 100, 4000, 1000, 50])), 'latency_ms': draw(st.sampled_from([0, 0, 20, 150, 400]))}
 
 
 def _enum(tier):
